@@ -38,18 +38,18 @@ type Fn struct {
 }
 
 type Call struct {
-	Fn    int      `json:"fn"`
-	Args  []string `json:"args"`
-	Tail  []string `json:"tail,omitempty"`
-	Spread bool    `json:"spread,omitempty"`
-	Form  string   `json:"form"`
+	Fn     int      `json:"fn"`
+	Args   []string `json:"args"`
+	Tail   []string `json:"tail,omitempty"`
+	Spread bool     `json:"spread,omitempty"`
+	Form   string   `json:"form"`
 }
 
 type Prog struct {
 	Fns    []Fn   `json:"fns"`
 	Calls  []Call `json:"calls"`
-	Depth  int    `json:"depth"`  // recursion depth exercised
-	Locals int    `json:"locals"` // extra locals per frame of the constant-passing recursion
+	Depth  int    `json:"depth"`          // recursion depth exercised
+	Locals int    `json:"locals"`         // extra locals per frame of the constant-passing recursion
 	Keep   []int  `json:"keep,omitempty"` // retained variadic slices: argument count of each call (the callee kind rotates)
 }
 
@@ -658,9 +658,10 @@ func TestReplay(t *testing.T) {
 			}
 			return check(&p)
 		},
-		"redef": replayRedef,
+		"redef":         replayRedef,
 		"redefvariadic": replayRedefVariadic,
 		"manylocals":    replayManyLocals,
+		"builtinname":   replayBuiltinName,
 		"arity": func(raw json.RawMessage) *ev.Failure {
 			var c ErrCase
 			json.Unmarshal(raw, &c)
